@@ -60,6 +60,17 @@ def parseVal (s : String) : Option Val :=
     match ((String.ofList r).splitOn "-").mapM (·.toNat?) with
     | some [y, m, d, H, M, S] => some (.dt ⟨y, m, d, H, M, S⟩)
     | _ => none
+  | 'd' :: r =>
+    -- d<sign>:<digits>:<exponent | F | n | N>
+    match (String.ofList r).splitOn ":" with
+    | [sg, ds, ex] =>
+      let digits := ds.toList.map (fun c => c.toNat - 48)
+      let neg := sg == "1"
+      let e? : Option Py.DecExp :=
+        if ex == "F" then some .inf else if ex == "n" then some .nan else if ex == "N" then some .snan
+        else (parseInt ex).map .fin
+      e?.map (fun e => .dec ⟨neg, digits, e⟩)
+    | _ => none
   | _ => none
 
 def parseDict (s : String) : Option Dict :=
